@@ -7,6 +7,7 @@ AttrChoicesSmall == {
     << [a |-> "const", n |-> "title", v |-> "k1"] >>,
     << [a |-> "expr", n |-> "data-x", e |-> "E1"] >>,
     << [a |-> "cssclass"] >>,
+    << [a |-> "url", u |-> "U2"] >>,
     << [a |-> "cond", c |-> "C1", then |-> << [a |-> "const", n |-> "title", v |-> "k1"] >>, else |-> << >>] >> }
 AttrChoicesFull == {
     NoAttrs,
@@ -19,6 +20,11 @@ AttrChoicesFull == {
     << [a |-> "class2"] >>,
     << [a |-> "cssclass"] >>,
     << [a |-> "scriptcall"], [a |-> "const", n |-> "title", v |-> "k1"] >>,
+    << [a |-> "url", u |-> "U1"] >>,
+    << [a |-> "const", n |-> "title", v |-> "k1"], [a |-> "url", u |-> "U2"] >>,
+    << [a |-> "style", e |-> "T1"] >>,
+    << [a |-> "style", e |-> "T2"], [a |-> "boolc", n |-> "hidden"] >>,
+    << [a |-> "cond", c |-> "C1", then |-> << [a |-> "url", u |-> "U1"] >>, else |-> << [a |-> "style", e |-> "T1"] >>] >>,
     << [a |-> "const", n |-> "href", v |-> "k5"] >>,
     << [a |-> "const", n |-> "placeholder", v |-> "k6"], [a |-> "boolc", n |-> "hidden"] >>,
     << [a |-> "cond", c |-> "C2", then |-> << [a |-> "boolc", n |-> "hidden"] >>, else |-> << [a |-> "class2"] >>] >>,
